@@ -220,6 +220,24 @@ def check(run, prog, tier):
     run.ob("N4", f"{anchor.qual}:found-means-live-matching-entry", bool(found_ok), loc(anchor),
            "a watched service counts as found iff some live entry of found_services matches it (matches_service)" if found_ok else
            "the filter of the FindService list is not `not any(service matches s for s in the live entries of found_services)`")
+    # "live entries" is what the store's entries() yields: every key of every per-address table, unfiltered (an entry without
+    # an expiry timer - infinite TTL - is as live as one with a timer)
+    ent = prog.lookup_method("sd.TimedStore", "entries")
+    if ent is None:
+        raise AnalysisError("sd.TimedStore.entries vanished")
+    run.analysed(ent)
+    oke, whye = True, "yields every stored key"
+    eps = engine(prog, InlineOnly(names=(), props=False, max_depth=1)).paths(ent, recv="sd.TimedStore")
+    run.paths += len(eps)
+    for p in eps:
+        rv = p.retval() if p.returns() else None
+        filt = [c for c, _v, _n, _k in p.conds]
+        comps = [t_ for t_ in subterms(rv) if t_[0] == "comp"] if rv is not None else []
+        if rv is None or filt or any(g_[2] for t_ in comps for g_ in t_[3]) or not contains(rv, lambda t_: t_ == ("attr", ("self", "sd.TimedStore"), "store")):
+            oke = False
+            whye = ("leaves stored entries out (" + (show(filt[0])[:60] if filt else next((show(g_[2][0])[:60] for t_ in comps for g_ in t_[3] if g_[2]), "not built from self.store")) +
+                    "): a found service that is dropped here is asked for again in every round")
+    run.ob("N4", f"{ent.qual}:yields-every-stored-entry", oke, loc(ent), f"TimedStore.entries() {whye}")
     tp = e0.paths(start, recv=DISC)
     run.paths += len(tp)
     okst = False
